@@ -591,7 +591,8 @@ pub const fn is_gregorian_valid(
         && day == usual_days_per_month(month)
         && hour == 23
         && minute == 59
-        && ((month == 6 && july_years(year)) || (month == 12 && january_years(year + 1)))
+        && ((month == 6 && july_years(year))
+            || (month == 12 && january_years(year.wrapping_add(1))))
     {
         60
     } else {
